@@ -8,7 +8,13 @@ import Asn1cModel.Proofs.FixerMisc
   Spec = `Spec.Fix` (X.680 distinct-tag rules over `HasOuter`, ENUMERATED numbering, …).
 
   Shape of the result: on an explicit decidable domain the fixer's verdict is exactly
-  `¬ Spec.consistent`.  The domain excludes only the region where the model runs out of fuel:
+  `¬ Spec.consistent`.  The domain excludes two regions where asn1c violates the property (each
+  has a counter-example theorem below and a witness replayed on the real asn1c by the check)
+  and the region where the model runs out of fuel:
+    * `cut`     — `_asn1f_compare_tags` answered through its TM_RECURSION guard
+                   (`typeref_then_choice_ref_missed_cex`: a clash is missed)
+    * numbering — the code numbers un-numbered enumeration items max+1 instead of X.680 §20.3
+                   (`enum_numbering_rejects_valid_cex`, `enum_numbering_accepts_duplicate_cex`)
     * fuel      — a type that contains itself without an intervening tag: the C code's
                    `_asn1f_compare_tags` stops at its depth guard with a FATAL diagnostic, the model
                    runs out of fuel; both report reject (`recursive_untagged_choice_rejected`: the
@@ -16,13 +22,6 @@ import Asn1cModel.Proofs.FixerMisc
                    check demands a rejection by exit status on every such module).  The guard
                    stays in `Dom_C11` because "out of fuel implies inconsistent" is not proved in
                    general.
-  Two former regions are gone with the repair of the code (findings F61, F62/F15):
-    * `_asn1f_compare_tags` no longer marks the compared members with TM_RECURSION (the marks made
-      `asn1f_fetch_tags_impl` fail on the marked reference and a clash was missed): `compare_tags_iff`
-      holds for every answer; the former witness is `typeref_then_choice_ref_diagnosed`.
-    * `asn1f_fix_enum` numbers un-numbered items as X.680 §20.3 / §20.6 say instead of max+1:
-      `fix_enum_numbering` (every item list), `fix_enum_iff`; the former witnesses are
-      `enum_numbering_accepts_valid`, `enum_numbering_rejects_duplicate`.
 -/
 namespace Asn1c.Props.C11
 open Asn1c.Fix Asn1c.Impl.Fixer Asn1c.Spec.Fix Asn1c.Proofs.Fixer
@@ -38,8 +37,10 @@ open Asn1c.Fix Asn1c.Impl.Fixer Asn1c.Spec.Fix Asn1c.Proofs.Fixer
 def WfModule (M : Module) : Prop := otherFatal M = some false
 
 /-- The model's reference following never ran out of fuel (true for every module whose
-    look-through graph is acyclic). -/
-def Dom_C11 (M : Module) : Prop := (fixerRun M).isSome = true
+    look-through graph is acyclic), no tag comparison was answered by the TM_RECURSION guard,
+    and the code's numbering of every ENUMERATED is the X.680 numbering. -/
+def Dom_C11 (M : Module) : Prop :=
+  (fixerRun M).map CR.cut = some false ∧ ∀ t ∈ M.nodes, EnumAgrees t
 
 instance (M : Module) : Decidable (WfModule M) := by unfold WfModule; infer_instance
 instance (M : Module) : Decidable (Dom_C11 M) := by unfold Dom_C11; infer_instance
@@ -52,14 +53,14 @@ theorem fetch_outmost_tag_spec (M : Module) (f : Nat) (x : Ex) (g : OTag)
     (h : fetchOutmost M f x = .tag g) : ∀ g', outerTags M x g' ↔ g' = g :=
   fetchOutmost_tag M f x g h
 
-/-- **_asn1f_compare_tags**: whenever it answers (without running out of fuel), it reports
-    "same tag" iff the sets of possible outermost tags of the two members intersect — looking
-    through type references and nested untagged CHOICEs, with the members of those CHOICEs
-    tagged as the tagging environment (incl. AUTOMATIC) says. -/
-theorem compare_tags_iff (M : Module) (f : Nat) (a b : Ex) (r : Bool)
-    (h : compareTags M f a b = some r) :
-    r = true ↔ ∃ g, outerTags M a g ∧ outerTags M b g :=
-  compareTags_sound M f a b r h
+/-- **_asn1f_compare_tags**: whenever it answers without running out of fuel and without its
+    TM_RECURSION guard, it reports "same tag" iff the sets of possible outermost tags of the
+    two members intersect — looking through type references and nested untagged CHOICEs, with
+    the members of those CHOICEs tagged as the tagging environment (incl. AUTOMATIC) says. -/
+theorem compare_tags_iff (M : Module) (f : Nat) (a b : Ex) (r : CR)
+    (h : compareTags M f a false b false = some r) (hcut : r.cut = false) :
+    r.clash = true ↔ ∃ g, outerTags M a g ∧ outerTags M b g :=
+  compareTags_sound M f a false b false r h hcut
 
 /-- **asn1f_fix_constr_tag + asn1f_fix_constr_autotag** give every member the (class, number)
     the X.680 tagging environment gives it: the fixed member list and `Spec.comps` agree
@@ -128,13 +129,13 @@ theorem autotag_numbering (M : Module) (root adds : List Comp) (hasExt : Bool)
     distinctness rule of that kind is violated (SEQUENCE: runs of OPTIONAL/DEFAULT components
     plus the following one; SET/CHOICE: all pairs). -/
 theorem tags_distinct_iff (M : Module) (k : CKind) (root adds : List Comp) (hasExt : Bool)
-    (ss : List Slot) (c : Bool)
+    (ss : List Slot) (c : CR)
     (hs : Asn1c.Impl.Fixer.comps M root hasExt adds = some ss)
-    (hc : checkDistinct M (k == .sequence) ss = some c) :
-    c = true ↔ ¬ tagsDistinct M k (Asn1c.Spec.Fix.comps M root hasExt adds) := by
-  have h := checkDistinct_spec M _ ss c hc
+    (hc : checkDistinct M (k == .sequence) ss = some c) (hcut : c.cut = false) :
+    c.clash = true ↔ ¬ tagsDistinct M k (Asn1c.Spec.Fix.comps M root hasExt adds) := by
+  have h := checkDistinct_spec M _ ss c hc hcut
   rw [allOk_rel (comps_rel hs), allOk_iff_tagsDistinct] at h
-  rw [← h]; cases c <;> simp
+  rw [← h]; cases c.clash <;> simp
 
 /-! ### identifiers, enumerations, references -/
 
@@ -142,17 +143,20 @@ theorem tags_distinct_iff (M : Module) (k : CKind) (root adds : List Comp) (hasE
 theorem unique_identifiers_iff (names : List String) : dupNames [] names = true ↔ ¬ names.Nodup := by
   rw [← dupNames_nil_iff]; cases dupNames [] names <;> simp
 
-/-- **asn1f_fix_enum** numbers the items as X.680 §20.3 / §20.6 say, whatever the item list:
-    an un-numbered root item gets the smallest value ≥ the previous assigned one + 1 that no root
-    item is given explicitly; an un-numbered addition the smallest value not in the root and
-    larger than the preceding additions. -/
-theorem fix_enum_numbering (r a : List EnumItem) : (fixEnum r a).1 = enumVals r a :=
-  fixEnum_vals r a
+/-- **asn1f_fix_enum**, with the values *it* assigns: FATAL iff an item name repeats, a value
+    repeats, or the additions are not strictly increasing -/
+theorem fix_enum_iff (r a : List EnumItem) :
+    (fixEnum r a).2 = true ↔
+      ¬ (((r ++ a).map EnumItem.name).Nodup ∧ (fixEnum r a).1.Nodup ∧
+         ((fixEnum r a).1.drop r.length).Pairwise (· < ·)) := by
+  have h := fixEnum_spec r a
+  unfold itemNames at h
+  rw [← h]; cases (fixEnum r a).2 <;> simp
 
-/-- **asn1f_fix_enum**: FATAL iff X.680 §20 is violated — an item name repeats, a value
-    (under the X.680 numbering) repeats, or the additions are not strictly increasing -/
-theorem fix_enum_iff (r a : List EnumItem) : (fixEnum r a).2 = true ↔ ¬ enumOk r a := by
-  rw [← fixEnum_enumOk r a]; cases (fixEnum r a).2 <;> simp
+/-- … hence, where the code's numbering is the X.680 numbering, FATAL iff X.680 §20 is violated -/
+theorem fix_enum_iff_partial (r a : List EnumItem) (hag : (fixEnum r a).1 = enumVals r a) :
+    (fixEnum r a).2 = true ↔ ¬ enumOk r a := by
+  rw [← fixEnum_enumOk hag]; cases (fixEnum r a).2 <;> simp
 
 /-- **asn1f_fix_dereference_types**: a module passes iff every referenced type name is assigned -/
 theorem unknown_type_iff (M : Module) (hloop : ∀ t ∈ M.nodes, derefFatal M t ≠ none) :
@@ -189,17 +193,19 @@ theorem unknown_type_iff (M : Module) (hloop : ∀ t ∈ M.nodes, derefFatal M t
     undefined. -/
 theorem verdict_iff (M : Module) (hwf : WfModule M) (hdom : Dom_C11 M) :
     fixerVerdict M = .reject ↔ ¬ consistent M := by
-  unfold Dom_C11 at hdom
+  obtain ⟨hrun, henum⟩ := hdom
   unfold WfModule at hwf
   cases hcat : catalogueFatal M with
-  | none => unfold fixerRun at hdom; rw [hcat] at hdom; simp at hdom
+  | none => unfold fixerRun at hrun; rw [hcat] at hrun; simp at hrun
   | some a =>
-    have hrun' : fixerRun M = some a := by
+    have hrun' : fixerRun M = some ⟨a.clash, a.cut⟩ := by
       unfold fixerRun; rw [hcat, hwf]; simp
-    have h := catalogue_iff hcat
+    rw [hrun'] at hrun
+    simp at hrun
+    have h := catalogue_iff hcat hrun henum
     unfold fixerVerdict
     rw [hrun', ← h]
-    cases a <;> simp
+    cases hcl : a.clash <;> simp
 
 /-- accept side, spelled out -/
 theorem accepts_consistent (M : Module) (hwf : WfModule M) (hdom : Dom_C11 M) (hc : consistent M) :
@@ -210,7 +216,7 @@ theorem accepts_consistent (M : Module) (hwf : WfModule M) (hdom : Dom_C11 M) (h
 
 /-! ### non-vacuity: a module with AUTOMATIC TAGS, references, a nested untagged CHOICE behind a
     reference chain, an extensible SEQUENCE with an OPTIONAL run, an ENUMERATED with mixed
-    numbering (r(1), s, ..., t: s = 0, t = 2) — lies in the domain and is accepted -/
+    numbering — lies in the domain and is accepted -/
 
 def P (p : Prim) : Ty := .prim none p
 
@@ -221,26 +227,13 @@ def exampleModule : Module := ⟨.automatic, [
       [.mk "x" (.ref (some ⟨.context, 5, .default_⟩) "T1") .optional,
        .mk "y" (.prim (some ⟨.context, 6, .implicit⟩) .octetString) .optional,
        .mk "z" (.ref none "T1") .mandatory] true
-      [.mk "w" (.enum none [⟨"r", some 1⟩, ⟨"s", none⟩] true [⟨"t", none⟩]) .optional]⟩,
+      [.mk "w" (.enum none [⟨"r", some 0⟩, ⟨"s", none⟩] true [⟨"t", none⟩]) .optional]⟩,
   ⟨"T3", .constr none .set [.mk "p" (.ref none "T2") .mandatory, .mk "q" (.seqOf none (.ref none "T3")) .mandatory] false []⟩]⟩
 
 example : WfModule exampleModule ∧ Dom_C11 exampleModule ∧ fixerVerdict exampleModule = .accept := by
   decide +kernel
 
-/-- a consistent module of the shape that used to be cut by the TM_RECURSION marks (an untagged type
-    reference followed by a reference to an untagged CHOICE, T0 ::= BOOLEAN sharing no tag with it)
-    lies in the domain and is accepted -/
-def exampleModule2 : Module := ⟨.explicit, [
-  ⟨"T0", P .boolean⟩,
-  ⟨"T1", .constr none .choice
-      [.mk "x" (.ref none "T0") .mandatory, .mk "y" (.ref none "T2") .mandatory] false []⟩,
-  ⟨"T2", .constr none .choice
-      [.mk "p" (P .integer) .mandatory, .mk "q" (P .null) .mandatory] false []⟩]⟩
-
-example : WfModule exampleModule2 ∧ Dom_C11 exampleModule2 ∧ fixerVerdict exampleModule2 = .accept := by
-  decide +kernel
-
-/-! ### former witnesses of repaired findings, a quirk (each replayed on the real asn1c) -/
+/-! ### counter-examples for the excluded regions (each replayed on the real asn1c) -/
 
 /-- T1 ::= CHOICE { x T0, y T2 },  T0 ::= INTEGER,  T2 ::= CHOICE { p INTEGER, q NULL } -/
 def markModule : Module := ⟨.explicit, [
@@ -250,14 +243,13 @@ def markModule : Module := ⟨.explicit, [
   ⟨"T2", .constr none .choice
       [.mk "p" (P .integer) .mandatory, .mk "q" (P .null) .mandatory] false []⟩]⟩
 
-/-- **Former finding F61 (TM_RECURSION), repaired.**  Alternatives x and y of T1 can both carry
-    UNIVERSAL 2.  `_asn1f_compare_tags(x, y)` used to mark x before descending into T2, and
-    `asn1f_fetch_tags_impl` refused to follow the marked reference x: accepted.  Without the marks
-    the clash p / x is found: the module is in the domain and rejected. -/
-theorem typeref_then_choice_ref_diagnosed :
-    WfModule markModule ∧ Dom_C11 markModule ∧ fixerVerdict markModule = .reject ∧
-    ¬ consistent markModule := by
-  refine ⟨by decide +kernel, by decide +kernel, by decide +kernel, ?_⟩
+/-- **Finding (TM_RECURSION).**  Alternatives x and y of T1 can both carry UNIVERSAL 2, yet the
+    fixer accepts: `_asn1f_compare_tags(x, y)` marks x before descending into T2, and
+    `asn1f_fetch_tags_impl` refuses to follow the marked reference x. -/
+theorem typeref_then_choice_ref_missed_cex :
+    WfModule markModule ∧ fixerVerdict markModule = .accept ∧ ¬ consistent markModule ∧
+    fixerRun markModule = some ⟨false, true⟩ := by
+  refine ⟨by decide +kernel, by decide +kernel, ?_, by decide +kernel⟩
   intro hc
   have hnode := hc (.constr none .choice
       [.mk "x" (.ref none "T0") .mandatory, .mk "y" (.ref none "T2") .mandatory] false [])
@@ -286,13 +278,11 @@ theorem typeref_then_choice_ref_diagnosed :
 /-- T0 ::= ENUMERATED { a, b(0) } -/
 def enumModule1 : Module := ⟨.explicit, [⟨"T0", .enum none [⟨"a", none⟩, ⟨"b", some 0⟩] false []⟩]⟩
 
-/-- **Former finding F62 (numbering, reject side), repaired.**  X.680 §20.3 gives a = 1, b = 0:
-    consistent; the code numbered a = 0 and reported a collision.  Now accepted, with the X.680
-    values. -/
-theorem enum_numbering_accepts_valid :
-    WfModule enumModule1 ∧ fixerVerdict enumModule1 = .accept ∧ consistent enumModule1 ∧
-    (fixEnum [⟨"a", none⟩, ⟨"b", some 0⟩] []).1 = [1, 0] := by
-  refine ⟨by decide +kernel, by decide +kernel, ?_, by decide +kernel⟩
+/-- **Finding (numbering, reject side).**  X.680 §20.3 gives a = 1, b = 0: consistent; the code
+    numbers a = 0 and reports a collision. -/
+theorem enum_numbering_rejects_valid_cex :
+    WfModule enumModule1 ∧ fixerVerdict enumModule1 = .reject ∧ consistent enumModule1 := by
+  refine ⟨by decide +kernel, by decide +kernel, ?_⟩
   intro t ht
   have : t = .enum none [⟨"a", none⟩, ⟨"b", some 0⟩] false [] := by
     simpa [enumModule1, Module.nodes, nodesOf, Ty.nodes] using ht
@@ -305,13 +295,11 @@ theorem enum_numbering_accepts_valid :
 def enumModule2 : Module :=
   ⟨.explicit, [⟨"T0", .enum none [⟨"a", some 1⟩, ⟨"b", none⟩] true [⟨"c", some 0⟩]⟩]⟩
 
-/-- **Former finding F62 / F15 (numbering, accept side), repaired.**  X.680 §20.3 gives b = 0
-    (the code numbered b = 2, which also changed the PER enumeration indexes), so c(0) repeats a
-    value: now rejected. -/
-theorem enum_numbering_rejects_duplicate :
-    WfModule enumModule2 ∧ fixerVerdict enumModule2 = .reject ∧ ¬ consistent enumModule2 ∧
-    (fixEnum [⟨"a", some 1⟩, ⟨"b", none⟩] [⟨"c", some 0⟩]).1 = [1, 0, 0] := by
-  refine ⟨by decide +kernel, by decide +kernel, ?_, by decide +kernel⟩
+/-- **Finding (numbering, accept side).**  X.680 §20.3 gives b = 0, so c(0) repeats a value;
+    the code numbers b = 2 and accepts. -/
+theorem enum_numbering_accepts_duplicate_cex :
+    WfModule enumModule2 ∧ fixerVerdict enumModule2 = .accept ∧ ¬ consistent enumModule2 := by
+  refine ⟨by decide +kernel, by decide +kernel, ?_⟩
   intro hc
   have h := hc (.enum none [⟨"a", some 1⟩, ⟨"b", none⟩] true [⟨"c", some 0⟩])
     (by simp [enumModule2, Module.nodes, nodesOf, Ty.nodes])
